@@ -108,22 +108,81 @@ def _returned_names(m):
     return rets
 
 
+TOLERANT = ('isclose', 'allclose', 'argmin', 'searchsorted', 'get_indexer', 'get_loc',
+            'nearest', 'tolerance', 'round', 'abs', 'fabs')
+
+
+def _exact_guard(st, tparam, selfname='self'):
+    """`if <time> not in self.data.index: return None`"""
+    return isinstance(st, ast.If) and isinstance(st.test, ast.Compare) and \
+        len(st.test.ops) == 1 and isinstance(st.test.ops[0], ast.NotIn) and \
+        norm_text(st.test.left) == tparam and \
+        norm_text(st.test.comparators[0]) == '%s.data.index' % selfname and \
+        len(st.body) == 1 and _returns_none(st.body[0])
+
+
+def _returns_none(st):
+    return isinstance(st, ast.Return) and (
+        st.value is None or (isinstance(st.value, ast.Constant) and st.value.value is None))
+
+
+def _guard_of(ctx, c, m):
+    """(index of the guarding statement in m.body, verdict, reason).  The presence decision is
+    either the exact membership test in the method itself, or a helper method of the class
+    whose None result makes the method return None; the helper must decide by exact
+    membership - a tolerance / nearest-sample match returns data for a time that is absent."""
+    tparam = m.params[1]
+    body = m.node.body
+    for i, st in enumerate(body):
+        if _exact_guard(st, tparam):
+            return i, True, ''
+    # helper form: v = self.h(time) ; if v is None: return None
+    for i, st in enumerate(body):
+        if isinstance(st, ast.Assign) and len(st.targets) == 1 and \
+                isinstance(st.targets[0], ast.Name) and isinstance(st.value, ast.Call) and \
+                isinstance(st.value.func, ast.Attribute) and \
+                norm_text(st.value.func.value) == 'self' and \
+                any(norm_text(a) == tparam for a in st.value.args):
+            v = st.targets[0].id
+            h = ctx.repo.class_member(c, st.value.func.attr)
+            if not isinstance(h, FunctionInfo):
+                continue
+            nxt = body[i + 1] if i + 1 < len(body) else None
+            if not (isinstance(nxt, ast.If) and norm_text(nxt.test) in
+                    ('%s is None' % v,) and len(nxt.body) == 1 and _returns_none(nxt.body[0])):
+                continue
+            ctx.touch(h)
+            hp = h.params[1 + [norm_text(a) for a in st.value.args].index(tparam)] \
+                if len(h.params) > 1 else None
+            tol = sorted({n.func.attr if isinstance(n.func, ast.Attribute) else n.func.id
+                          for n in ast.walk(h.node) if isinstance(n, ast.Call) and
+                          (n.func.attr if isinstance(n.func, ast.Attribute) else
+                           getattr(n.func, 'id', '')) in TOLERANT})
+            exact = None
+            for k, hs in enumerate(h.node.body):
+                if isinstance(hs, ast.Expr) and isinstance(hs.value, ast.Constant):
+                    continue
+                if hp and _exact_guard(hs, hp):
+                    exact = k
+                    break
+                if 'self.data' in norm_text(hs) and 'len(self.data)' not in norm_text(hs):
+                    break
+            if exact is not None and not tol:
+                return i + 1, True, ''
+            return i + 1, False, (
+                'the presence of the time is decided by %s.%s through %s, not by exact membership '
+                'in the data index: a time that is absent but close to a sample returns that '
+                "sample's measurement" % (c.name, h.name,
+                                          ', '.join(tol) if tol else 'an unrecognised test'))
+    return None, False, ('%s.compute_matrices reads self.data without first returning None for '
+                         'a time that is not in the data' % c.name)
+
+
 def meas_guard(ctx):
-    ctx.rule('MEAS-GUARD', '`time not in self.data.index: return None` dominates every access '
-             'to the measured data')
+    ctx.rule('MEAS-GUARD', 'a time that is not (exactly) in the data index returns None before '
+             'any access to the measured data (test in the method or in a helper of the class)')
     for c, m in _subclasses(ctx):
-        tparam = m.params[1]
-        guard_i = None
-        for i, st in enumerate(m.node.body):
-            if isinstance(st, ast.If) and isinstance(st.test, ast.Compare) and \
-                    len(st.test.ops) == 1 and isinstance(st.test.ops[0], ast.NotIn) and \
-                    norm_text(st.test.left) == tparam and \
-                    norm_text(st.test.comparators[0]) == 'self.data.index' and \
-                    len(st.body) == 1 and isinstance(st.body[0], ast.Return) and \
-                    (st.body[0].value is None or (isinstance(st.body[0].value, ast.Constant)
-                                                  and st.body[0].value.value is None)):
-                guard_i = i
-                break
+        guard_i, ok, why = _guard_of(ctx, c, m)
         first_use = None
         for i, st in enumerate(m.node.body):
             if isinstance(st, ast.Expr) and isinstance(st.value, ast.Constant):
@@ -131,11 +190,12 @@ def meas_guard(ctx):
             if 'self.data' in norm_text(st) and i != guard_i:
                 first_use = i
                 break
-        ok = guard_i is not None and (first_use is None or guard_i < first_use)
+        if ok and first_use is not None and guard_i is not None and first_use < guard_i:
+            ok = False
+            why = ('%s.compute_matrices reads self.data before the absent-time test' % c.name)
         ctx.ob('MEAS-GUARD', ok, None, '%s: absent time returns None before the data is read'
                % c.name, f=m, node=m.node.body[guard_i if guard_i is not None else 0],
-               key='guard', why='%s.compute_matrices reads self.data without first '
-                                'returning None for a time that is not in the data' % c.name)
+               key='guard', why=why)
 
 
 def _jacobian_call(ctx, m, hname):
@@ -165,6 +225,8 @@ def meas_dep(ctx):
                  '%s: returned z/H are not local names' % c.name)
         _, zattrs = _deps(m.node, zn.id, m.params)
         zattrs -= {'data', 'R'}
+        zattrs = {a for a in zattrs
+                  if not isinstance(ctx.repo.class_member(c, a), FunctionInfo)}
         calls = _jacobian_call(ctx, m, hn.id)
         ctx.need(len(calls) == 1, '%s: Jacobian call defining H not found' % c.name)
         call = calls[0]
@@ -231,8 +293,13 @@ class _MeasHooks:
         return None
 
     def subscript(self, ev, base, idx, node, env):
-        if isinstance(base, Opaque) and base.tag == 'data.loc':
-            cols = idx[1] if isinstance(idx, tuple) and len(idx) == 2 else None
+        if isinstance(base, Opaque) and base.tag == 'data.loc' and not isinstance(idx, tuple):
+            return Opaque('data.row')           # the whole row at that time
+        if isinstance(base, Opaque) and base.tag in ('data.loc', 'data.row'):
+            if base.tag == 'data.row':
+                cols = idx
+            else:
+                cols = idx[1] if isinstance(idx, tuple) and len(idx) == 2 else None
             if isinstance(cols, (list, tuple)) and all(isinstance(c, str) for c in cols):
                 out = SArray((len(cols),), {})
                 for i, c in enumerate(cols):
@@ -480,8 +547,13 @@ class _JH(RotHooks):
         return RotHooks.attr(self, ev, base, a, node)
 
     def subscript(self, ev, base, idx, node, env):
-        if isinstance(base, Opaque) and base.tag == 'data.loc':
-            cols = idx[1] if isinstance(idx, tuple) and len(idx) == 2 else None
+        if isinstance(base, Opaque) and base.tag == 'data.loc' and not isinstance(idx, tuple):
+            return Opaque('data.row')           # the whole row at that time
+        if isinstance(base, Opaque) and base.tag in ('data.loc', 'data.row'):
+            if base.tag == 'data.row':
+                cols = idx
+            else:
+                cols = idx[1] if isinstance(idx, tuple) and len(idx) == 2 else None
             if isinstance(cols, (list, tuple)) and all(isinstance(c, str) for c in cols):
                 out = SArray((len(cols),), {})
                 for i, c in enumerate(cols):
